@@ -8,20 +8,28 @@ HARNESS = dict(name="mt", source="mt.cpp", san=False,
                variant_of=lambda c: c.split("\t")[-1])
 
 
+SEV_PAIRS = [(2, b) for b in range(6)] + [(a, 2) for a in range(6) if a != 2] + [(5, 5), (0, 5), (5, 0)]
+
+
 def gen_c09(tier, rng):
     big = tier == "thorough"
     out = []
     for sink in "oe":
-        for rep in range(3):
-            out.append("\t".join(["mt", "turn", sink, str(rep), "asan"]))
-            # identical lines are deduplicated by the runner: add a distinguishing no-op field via the build tag
+        # turnstile: every severity of the second writer against an info record, every severity of the parked
+        # writer, fatal against fatal; parked in the write and in the flush
+        for (sa, sb) in SEV_PAIRS:
+            for park in "ws":
+                for rep in range(2 if big else 1):
+                    out.append("\t".join(["mt", "turn", sink, str(sa), str(sb), park, str(rep), "asan"]))
         for n in (2, 4, 8):
             for r in ((20, 120, 250) if big else (20, 120)):
-                for k in range(12 if big else 2):
-                    out.append("\t".join(["mt", "stress", sink, str(n), str(r), str(rng.below(10 ** 6)), "asan"]))
+                for mode in ((2, 5, 6, 7) if big else (6, 7)):
+                    for k in range(4 if big else 1):
+                        out.append("\t".join(["mt", "stress", sink, str(n), str(r), str(mode), str(rng.below(10 ** 6)), "asan"]))
         for n in ((2, 4, 8) if big else (4,)):
             for r in ((100, 250) if big else (60,)):
-                out.append("\t".join(["mt", "stress", sink, str(n), str(r), str(rng.below(10 ** 6)), "tsan"]))
+                for mode in (6, 7):
+                    out.append("\t".join(["mt", "stress", sink, str(n), str(r), str(mode), str(rng.below(10 ** 6)), "tsan"]))
     return out
 
 
@@ -32,22 +40,26 @@ def c09_extract():
 C09 = Prop(
     "C09", "mt", ["NitroVerif.Props.C09"], gen_c09,
     rule="real threads through one logger whose sink is stdout_mt / StdErrThreaded, with std::cout / std::cerr's buffer "
-         "replaced by a deliberately unsynchronised one that detects concurrent entry: a turnstile scenario (writer A "
-         "parked inside the stream buffer, writer B given 300 ms to get in) and stress runs with N in {2,4,8} threads x "
-         "20/120 records of varying length (thorough: up to 250, more seeds) with yields, byte-exact reassembly of the output; one "
-         "ThreadSanitizer build (thorough: six). The model side runs the *extracted* sink body under seeded pseudo-random "
-         "schedules. Non-trivial: at least 2 threads. Distinct = distinct case line.",
+         "replaced by a deliberately unsynchronised, buffering one that detects concurrent entry into write and flush: a "
+         "turnstile scenario (writer A parked inside the stream buffer - in its write or in the flush that follows - "
+         "writer B given 300 ms to get in) for 14 pairs of severities (every severity of B against info, every severity "
+         "of A, fatal/fatal) and stress runs with N in {2,4,8} threads x 20/120 records of varying length and mixed "
+         "severities (thorough: up to 250, more seeds, more mixes) with yields, byte-exact reassembly of the device "
+         "contents; ThreadSanitizer builds. The model side runs the *extracted* per-severity sink bodies under seeded "
+         "pseudo-random schedules. Non-trivial: at least 2 threads. Distinct = distinct case line.",
     harness=HARNESS, extract=c09_extract,
     search=lambda dis, rng: gen_c09("thorough", rng),
-    theorem_hint="NitroVerif.Props.C09.{runs_inv,mutex,atomic,complete,extracted_sinks_are_good,unlocked_counterexample}",
+    theorem_hint="NitroVerif.Props.C09.{runs_inv,mutex,atomic,complete,extracted_sinks_are_good,stdout_mt_safe,stderr_mt_safe,*_counterexample}",
     level_text="Lean 4 theorem over every schedule (any interleaving, any number of threads and records, one step per "
-               "byte, no atomicity assumed of the stream): for the sink bodies extracted from the source on every run "
-               "(lock guard on a function-local static mutex first, then the insertion, then flushes) at most one "
+               "byte, no atomicity assumed of the stream, the sink body may depend on the record's severity): for "
+               "the sink bodies extracted from the source on every run, one per severity (lock guard on a function-local "
+               "static mutex first, then the insertion, then flushes, nothing released before the body ends) at most one "
                "thread is past the lock and the output is an order-preserving merge of whole records, nothing lost or "
                "duplicated. The scheduler, std::mutex and lock_guard are modelled; real threads are exercised by the "
                "harness (turnstile, stress, TSan) as support - that part is runtime observation, labelled partial.",
     level_note="Trusted: Lean kernel; propext/Classical.choice/Quot.sound; translator vlib/extract.py (clang 14 JSON AST of "
-               "the two sink bodies -> Generated/MtSinks.lean); the semantics given to lock_guard/mutex/operator<< in "
+               "the two sink bodies, executed symbolically per severity value: guards, deferred locks, nested blocks, "
+               "severity conditions, insertions and flushes; anything else is reported as unrecognised -> Generated/MtSinks.lean); the semantics given to lock_guard/mutex/operator<< in "
                "Model/MT.lean; real schedules are sampled, not enumerated.",
     technique="Lean 4 proof (invariant over all schedules of the extracted sink program) + translator + real-thread turnstile/TSan support",
     design_ref="4 Engine MT (C09)",
